@@ -454,7 +454,7 @@ def rule_r11(chk, rid="C01-R11"):
     term = lambda k: _S([("X", 1)] + ([("J", k - 1)] if k > 1 else []) + [("Ru", 1)], -1)
     funcs = {"_np.linalg.matrix_power": lambda a, k: _S([("J", k)] if k else []) if a == J else (_ for _ in ()).throw(fin.NotFinite("power of another matrix")),
              "_np.array": lambda a, **kw: a, "_np.copy": lambda a: a, "_np.eye": lambda *a, **k: _S([]), "_np.identity": lambda *a, **k: _S([])}
-    for have, forward in ((0, 3), (2, 5), (3, 3), (4, 2), (0, 0), (1, 4)):
+    for have, forward in (((0, 3), (2, 5), (3, 3), (4, 2), (0, 0), (1, 4)) if chk.tier != "thorough" else [(a_, b_) for a_ in range(0, 7) for b_ in range(0, 7)]):
         key = f"fords.solutions._get_solution_expansion[memo of {have}, forward {forward}]"
         memo_list = [term(k) for k in range(1, have + 1)]
         try:
